@@ -20,7 +20,11 @@ PROPS = {
     'C12': {'units': ['U-EXPORT'], 'assumptions': ['expand (import fix-point), Compiler multi-module state and split-equivalence are not under contract'], 'trusted': []},
     'C13': {'units': ['U-CODE', 'U-LEXD'], 'assumptions': ['alpha spans, rendering (ariadne) and run-to-run determinism are not under contract'], 'trusted': []},
     'C14': {'units': ['U-LEXD'], 'assumptions': ['the alpha lexer itself is not under contract, hence not the headline equivalence'], 'trusted': []},
-    'C15': {'units': ['U-LEXD', 'U-HDR'], 'assumptions': ['XML dumps (as_xml/print_xml) excluded: format!/Box<dyn Iterator>/&str slicing', 'parser units under construction'], 'trusted': []},
+    'C15': {'units': ['U-LEXD', 'U-PARSE', 'U-HDR'], 'assumptions': ['XML dumps (as_xml/print_xml) excluded: format!/Box<dyn Iterator>/&str slicing',
+            'parse() precondition: the token list comes from lex() without errors (ends in two EndOfSource tokens, packed words well formed) - the lexer unit does not yet export this as a postcondition',
+            'parse() precondition: 5 + 5 * tokens <= 2^24 (node ids are 24 bits): for inputs above ~3.3 million tokens U24::new would overflow (debug_assert) - documented size regime, see DESIGN.md section 5 (D10)',
+            'unbounded stack: recursion depth of the parser is not bounded by any obligation (D4: 5000 nested parentheses overflow the stack)',
+            '.into() conversions from lexer TokenId to parse_node::TokenId: argument < 2^24 not checked per call site (trait impls cannot carry requires); holds because cursor <= number of tokens < 2^24'], 'trusted': []},
     'C17': {'units': ['U-HDR'], 'assumptions': ['tree invariant (zones well bracketed, no reference crosses a zone) is a precondition here; parser side under construction'], 'trusted': []},
 }
 
@@ -56,7 +60,7 @@ LEVELS = {
             'note': 'trusted: Verus+Z3, slicer/splicer, heading parser of docs/errors.md'},
     'C14': {'text': 'PARTIAL: delta lexer only (unbounded, all byte strings <= 2^31): digit values, suffix table, identifier-continuation class, span arithmetic, termination and panic-freedom of all 13 loops. The alpha lexer and the equivalence of the two lexers are NOT under contract.',
             'note': 'trusted: Verus+Z3, slicer/splicer, rules R4-R7/R12 and the verified PeekIter/slice_eq shims, std specs is_ascii/is_ascii_graphic/char::from_u32/then_some'},
-    'C15': {'text': 'Proof (Verus, unbounded) for lexing and header extraction: for every byte string the delta lexer with its uninitialised token buffers terminates without overflow, out-of-bounds access or failing expect, and the unsafe set_len precondition (cells initialised) is discharged end to end through the buffer invariant; header extraction writes in bounds and initialises what set_len exposes. PARTIAL: parser units under construction; XML dumps excluded.',
+    'C15': {'text': 'Proof (Verus, unbounded) for lexing and header extraction: for every byte string the delta lexer with its uninitialised token buffers terminates without overflow, out-of-bounds access or failing expect, and the unsafe set_len precondition (cells initialised) is discharged end to end through the buffer invariant; header extraction writes in bounds and initialises what set_len exposes. parsing: all 29 parse_* functions, the cursor (parser/tokens.rs), the node buffer (parse_tree.rs) and parse() itself in ONE unit: termination, no take() after EndOfSource, no unreachable!() in consume, every debug_assert (most-recent-node, placeholder patches), node budget of 5 nodes per token so that push never exceeds the buffer, declaration loop ends at EndOfSource, unsafe set_len discharged. XML dumps excluded; recursion depth (stack) not bounded.',
             'note': 'trusted: Verus+Z3, slicer/splicer, rewrite rules, MaybeUninit/Vec spare-capacity model (std safety contract), Vec::with_capacity gives exactly n, allocation never fails, unbounded stack'},
     'C17': {'text': 'Proof (Verus, unbounded over all node sequences) that build_header/build_header_nodes/convert_for_head output exactly the public nodes in order, pub flag cleared, function bodies removed, node ids shifted by the number of skipped nodes, declarations = declaration nodes in order - under the tree invariant (zones well bracketed, no reference crosses a zone), which is the parser\'s obligation and is a precondition here.',
             'note': 'trusted: Verus+Z3, slicer/splicer, rules R4/R13/R17/R18/R19, enumset bit model, U24 conversions (slice patterns; proved separately by Kani when U-DIG lands), MaybeUninit/Vec model'},
